@@ -242,7 +242,8 @@ def _run(case, rec, kind, legacy, body, commands, encode, header, heartbeat):
         if not c.ok:
             rec.count('lib_refused')
             return
-        h = header.ContentHeader(0, case['size'], c.value)
+        wgt = [0, 0, 0, 1, 65535][rec.evaluations % 5]
+        h = header.ContentHeader(wgt, case['size'], c.value)
         m = common.lib_marshal(h, case['ch'])
         if not m.ok:
             rec.count('lib_refused')
